@@ -70,6 +70,7 @@ type Contract struct {
 	NoSafety   bool
 	Opaque     bool // call sites always use the contract
 	Calls      []CallClause
+	FrameProps []string
 }
 
 type CallClause struct {
@@ -97,12 +98,13 @@ type SpecDB struct {
 	Consts    map[string]string
 	Axioms    []Clause
 	Methods   map[string]bool // pure interface methods
+	Globals   map[string]string
 	Files     []string
 	Markers   []string // trusted/assume markers found
 }
 
 func NewSpecDB() *SpecDB {
-	return &SpecDB{Contracts: map[string]*Contract{}, Externs: map[string]*Contract{}, Funs: map[string]*SpecFun{}, UFuns: map[string]*UFun{}, Consts: map[string]string{}, Methods: map[string]bool{}}
+	return &SpecDB{Contracts: map[string]*Contract{}, Externs: map[string]*Contract{}, Funs: map[string]*SpecFun{}, UFuns: map[string]*UFun{}, Consts: map[string]string{}, Methods: map[string]bool{}, Globals: map[string]string{}}
 }
 
 type specLine struct {
@@ -193,6 +195,15 @@ func (db *SpecDB) LoadSpecFile(path string) error {
 			}
 			db.UFuns[name] = &UFun{Name: name, Args: params, Res: results[0]}
 			cur = nil
+		case "global":
+			// global <pkg.Var> = <integer | "string">   (initial value of a package variable that is never reassigned)
+			f := strings.SplitN(rest, "=", 2)
+			if len(f) != 2 {
+				return fail(fmt.Errorf("bad global"))
+			}
+			db.Globals[strings.TrimSpace(f[0])] = strings.TrimSpace(f[1])
+			db.Markers = append(db.Markers, "global "+strings.TrimSpace(f[0]))
+			cur = nil
 		case "const":
 			f := strings.Fields(rest)
 			if len(f) != 2 {
@@ -226,7 +237,7 @@ func (db *SpecDB) LoadSpecFile(path string) error {
 			db.Axioms = append(db.Axioms, c)
 			db.Markers = append(db.Markers, "axiom "+c.Label)
 			cur = nil
-		case "requires", "ensures", "panics", "assigns", "loop", "property", "inline", "pure", "nosafety", "opaque", "params", "results", "calls":
+		case "requires", "ensures", "panics", "assigns", "loop", "property", "inline", "pure", "nosafety", "opaque", "params", "results", "calls", "frameprop", "trusted":
 			if cur == nil {
 				return fail(fmt.Errorf("clause outside a contract"))
 			}
@@ -300,6 +311,15 @@ func (db *SpecDB) LoadSpecFile(path string) error {
 					return fail(err)
 				}
 				cur.Calls = append(cur.Calls, CallClause{Callee: strings.TrimSpace(f[0]), C: c})
+			case "trusted":
+				// the contract is assumed at call sites and the body is not verified against it
+				cur.Trusted = true
+				cur.Opaque = true
+				db.Markers = append(db.Markers, "trusted "+cur.Name)
+			case "frameprop":
+				for _, p := range strings.Split(rest, ",") {
+					cur.FrameProps = append(cur.FrameProps, strings.TrimSpace(p))
+				}
 			case "inline":
 				cur.Inline = true
 			case "pure":
@@ -321,9 +341,9 @@ func (db *SpecDB) LoadSpecFile(path string) error {
 	return nil
 }
 
-var keywords = map[string]bool{"func": true, "extern": true, "method": true, "ufun": true, "fun": true, "axiom": true, "const": true,
+var keywords = map[string]bool{"global": true, "func": true, "extern": true, "method": true, "ufun": true, "fun": true, "axiom": true, "const": true,
 	"requires": true, "ensures": true, "panics": true, "assigns": true, "loop": true, "property": true, "inline": true, "pure": true,
-	"nosafety": true, "opaque": true, "params": true, "results": true, "calls": true}
+	"nosafety": true, "opaque": true, "params": true, "results": true, "calls": true, "frameprop": true, "trusted": true}
 
 func startsWithKeyword(s string) bool {
 	kw, _ := splitKeyword(s)
